@@ -96,6 +96,14 @@ def scenarios(draw, max_runs=2, max_faults=4, long=False):
         engine.append([anchor, draw(st.sampled_from([0.0, 0.05, 0.1, 0.2, 0.3, 0.4, 0.5, 1.0, 2.2])),
                        draw(st.sampled_from(["stop", "stop", "start", "restart", "in"])), 7.0])
     dur = _r(max(t + 0.5, draw(st.sampled_from([4.0, 8.0, 12.0]))))
+    backoff = [draw(st.sampled_from([0.5, 0.5, 1.0, 3.0, 10.0])) for _ in range(draw(st.integers(0, 5)))]
+    if draw(st.integers(0, 2)) == 0:
+        # aim an event at the 0.1 s wide Reconnecting state: it follows the n-th entry into Disconnected by the n-th back-off
+        # draw (Stop/Restart need two engine ticks to take effect, Start one)
+        n = draw(st.integers(1, 3))
+        b = backoff[n - 1] if n <= len(backoff) else 0.5
+        kind = draw(st.sampled_from(["stop", "stop", "restart", "start"]))
+        engine.append(["Disconnected#%d" % n, _r(max(0.0, b - draw(st.sampled_from([0.05, 0.1, 0.15, 0.2])))), kind, 7.0])
     outages = []
     for _ in range(draw(st.sampled_from([0, 1, 1, 1, 2, 2, 3]))):
         a = _r(draw(st.floats(0.3, dur)))
@@ -108,7 +116,6 @@ def scenarios(draw, max_runs=2, max_faults=4, long=False):
         faults.append([anchor, j, draw(st.sampled_from(["lost", "acklost", "ok"])), draw(st.sampled_from(LATS))])
     conn = [[draw(st.sampled_from(["ok", "ok", "ok", "fail", "fail_ws"])), draw(st.sampled_from([0.0, 0.0, 0.05, 0.3, 2.0]))]
             for _ in range(draw(st.integers(0, 5)))]
-    backoff = [draw(st.sampled_from([0.5, 0.5, 1.0, 3.0, 10.0])) for _ in range(draw(st.integers(0, 5)))]
     return {"method": method, "engine": engine, "dur": dur, "outages": outages, "faults": faults, "conn": conn,
             "backoff": backoff, "lat": draw(st.sampled_from([0.0, 0.01, 0.01, 0.05, 0.3])),
             "phase": draw(st.sampled_from([0.0, 0.03, 0.07]))}
@@ -318,6 +325,10 @@ def _classes(case, tr, info):
     for t, kind, _rid, rstate in tr["engine"]:
         if rstate not in ("Connected", "Reconnected"):
             cl.append("run-%s-while-%s" % (kind, rstate))
+    for st_name in ("Failed", "Disconnected", "Reconnecting", "CatchingUp"):
+        if any(p["via"] == "post" and p["state"] == st_name and p["type"] in ("RunStartedMsg", "RunStoppedMsg", "WebPushNotificationMsg")
+               for p in tr["posts"]):
+            cl.append("engine-event-posted-while-%s" % st_name)
     if any(s[1] == "CatchingUp" and s[2] == "Failed" for s in tr["states"]):
         cl.append("failure-during-catch-up")
     if "Reconnected" in st_new:
